@@ -74,6 +74,7 @@ DST_TARGETS = [
     "WAITING_FOR_MISSING_DATA",
     "RECV_FILE_DATA_WITH_CHECK_LIMIT_HANDLING",
     "WAITING_FOR_FINISHED_ACK",
+    "SENDING_FINISHED_PDU",
     "IDLE_AFTER_TRANSACTION",
 ]
 
@@ -125,6 +126,17 @@ def dst_to(w: World, target: str) -> bool:
     if target == "RECV_FILE_DATA_WITH_CHECK_LIMIT_HANDLING":
         go(md)
         go(eof)
+        return D.h.step.name == target
+    if target == "SENDING_FINISHED_PDU":
+        # the last segment arrives in the call which starts the deferred procedure: NAK and completion in one call, the Finished
+        # PDU waits for the next call
+        offs = list(range(0, len(data), seg))
+        go(md)
+        for off in offs[:-1]:
+            go(fd(off))
+        go(eof)
+        if offs:
+            go(fd(offs[-1]))
         return D.h.step.name == target
     if target in ("WAITING_FOR_FINISHED_ACK", "IDLE_AFTER_TRANSACTION"):
         go(md)
